@@ -433,7 +433,17 @@ def cases(draw, tier):
     ky = draw(st.integers(0, 9))
     if ky <= 1:
         y = "same"
-    elif ky <= 4 and x["kind"] == "doc":
+    elif x["kind"] == "doc" and ((4 <= ky <= 6 and max(len(x["doc"][k_]) for k_ in ("os", "services", "processes")) > 1)):
+        # same address bounds and the same name SETS, declared in a different order
+        import copy
+        d = copy.deepcopy(x["doc"])
+        multi = [sec for sec in ("os", "services", "processes") if len(d[sec]) > 1]
+        keep = draw(st.lists(st.sampled_from(multi), max_size=len(multi) - 1, unique=True)) if len(multi) > 1 else []
+        for sec in multi:
+            if sec not in keep:
+                d[sec] = list(reversed(d[sec]))
+        y = {"kind": "doc", "doc": d, "flow": None}
+    elif ky <= 6 and x["kind"] == "doc":
         # same vector layout, different content
         import copy
         d = copy.deepcopy(x["doc"])
@@ -445,15 +455,6 @@ def cases(draw, tier):
             cfg["processes"] = [p_ for p_ in d["processes"] if p_ not in cfg["processes"]]
             if a not in d["sensitive_hosts"]:
                 cfg["value"] = draw(st.sampled_from([0, 1, 3, -2]))
-        y = {"kind": "doc", "doc": d, "flow": None}
-    elif ky <= 6 and x["kind"] == "doc":
-        # same address bounds and the same name SETS, declared in a different order
-        import copy
-        d = copy.deepcopy(x["doc"])
-        for sec in ("os", "services", "processes"):
-            d[sec] = list(reversed(d[sec])) if len(d[sec]) > 1 and draw(st.booleans()) else d[sec]
-        if d["os"] == x["doc"]["os"] and d["services"] == x["doc"]["services"] and len(d["services"]) > 1:
-            d["services"] = list(reversed(d["services"]))
         y = {"kind": "doc", "doc": d, "flow": None}
     else:
         y = draw(engine.source_strategy(tier, dict(extras=True), weights=(10, 5, 5), gen_max_hosts=10))
@@ -472,7 +473,8 @@ def cases(draw, tier):
     modes = draw(st.fixed_dictionaries({"fully_obs": st.booleans(), "flat_obs": st.booleans(),
                                         "flat_actions": st.sampled_from([True, True, False])}))
     pre = []
-    if draw(st.booleans()):
+    if draw(st.booleans()) or 4 <= ky <= 6:
+        # (a pair that differs only in the declaration order matters when the OTHER one exists first)
         pre.append(("construct_B", {"fully_obs": False, "flat_actions": True, "flat_obs": True}))
         if draw(st.integers(0, 3)) == 0:
             pre.append(("third", "y"))
@@ -532,7 +534,7 @@ def main(tier, replay=None):
                                 [("third", "y")], [("reset_B",)], [("drop_B",)]], modes={}, render=True), rep)
     benchmark_seed_independence(rep)
     nshards = 16 if tier == "thorough" else 8
-    total = 16 * 1500 if tier == "thorough" else 320
+    total = 16 * 1500 if tier == "thorough" else 560
     for part in engine.run_shards(_shard, nshards, common.verif_seed(), tier=tier, n_cases=total // nshards):
         rep.merge(part)
     docs.cleanup()
